@@ -332,6 +332,94 @@ fn run_route(s: &mut Session, sink: &mut Sink, route: &'static str, t: &GTree, f
     }
 }
 
+
+/// A stepwise construction in a RANDOM order: every normal child is created and attached at its
+/// final relative position next to the siblings that are already there (append / prepend /
+/// insert_after / insert_before, chosen at random among the applicable ones); subtrees are
+/// filled before or after they are attached. Issued as ordinary `forest` requests, so the model
+/// replays every step. Returns the label of the root.
+fn shuffled_build(s: &mut Session, sink: &mut Sink, rng: &mut Rng, t: &GTree) -> usize {
+    let r = s.exec(sink, &format!("new {}", GTree::leaf(t.v.clone()).wire()));
+    let root: usize = r[3..].parse().unwrap();
+    shuffled_fill(s, sink, rng, root, t);
+    root
+}
+
+fn shuffled_fill(s: &mut Session, sink: &mut Sink, rng: &mut Rng, root: usize, t: &GTree) {
+    // namespace and attribute nodes in order (their order is part of the document)
+    for k in t.kids.iter().filter(|k| !k.is_normal()) {
+        let r = s.exec(sink, &format!("new {}", GTree::leaf(k.v.clone()).wire()));
+        let l: usize = r[3..].parse().unwrap();
+        s.exec(sink, &format!("any_append {} {}", root, l));
+    }
+    let normal: Vec<&GTree> = t.kids.iter().filter(|k| k.is_normal()).collect();
+    let n = normal.len();
+    // non-text children first, then the text children: two text nodes that are separated in the
+    // final document must never be adjacent on the way (they would be merged)
+    let mut order: Vec<usize> = (0..n).filter(|&i| !matches!(normal[i].v, GValue::Text(_))).collect();
+    let mut texts: Vec<usize> = (0..n).filter(|&i| matches!(normal[i].v, GValue::Text(_))).collect();
+    for v in [&mut order, &mut texts] {
+        for i in (1..v.len()).rev() {
+            v.swap(i, rng.below(i + 1));
+        }
+    }
+    order.extend(texts);
+    let mut placed: Vec<Option<usize>> = vec![None; n];
+    for &i in &order {
+        // a text node may be delivered in two pieces: the second piece must merge into the first
+        let (first, second): (GValue, Option<GValue>) = match &normal[i].v {
+            GValue::Text(x) if x.chars().count() >= 2 && s.xot_consolidation() && rng.chance(1, 2) => {
+                let cut = 1 + rng.below(x.chars().count() - 1);
+                let a: String = x.chars().take(cut).collect();
+                let b: String = x.chars().skip(cut).collect();
+                (GValue::Text(a), Some(GValue::Text(b)))
+            }
+            v => (v.clone(), None),
+        };
+        let r = s.exec(sink, &format!("new {}", GTree::leaf(first).wire()));
+        let l: usize = r[3..].parse().unwrap();
+        let fill_first = rng.chance(1, 2);
+        if fill_first {
+            shuffled_fill(s, sink, rng, l, normal[i]);
+        }
+        let left = (0..i).rev().find_map(|j| placed[j]);
+        let right = ((i + 1)..n).find_map(|j| placed[j]);
+        let mut options: Vec<String> = vec![];
+        if let Some(a) = left {
+            options.push(format!("insert_after {} {}", a, l));
+        }
+        if let Some(b) = right {
+            options.push(format!("insert_before {} {}", b, l));
+        }
+        if right.is_none() {
+            options.push(format!("append {} {}", root, l));
+        }
+        if left.is_none() {
+            options.push(format!("prepend {} {}", root, l));
+        }
+        let req = rng.pick(&options).clone();
+        sink.stat(&format!("shuffle.{}", req.split(' ').next().unwrap()));
+        s.exec(sink, &req);
+        placed[i] = Some(l);
+        if !fill_first {
+            shuffled_fill(s, sink, rng, l, normal[i]);
+        }
+        if let Some(second) = second {
+            let r = s.exec(sink, &format!("new {}", GTree::leaf(second).wire()));
+            let l2: usize = r[3..].parse().unwrap();
+            let mut options: Vec<String> = vec![format!("insert_after {} {}", l, l2)];
+            if let Some(b) = right {
+                options.push(format!("insert_before {} {}", b, l2));
+            } else {
+                options.push(format!("append {} {}", root, l2));
+            }
+            let req = rng.pick(&options).clone();
+            sink.stat(&format!("shuffle.second-piece.{}", req.split(' ').next().unwrap()));
+            s.exec(sink, &req);
+        }
+    }
+}
+
 fn fail(sink: &mut Sink, s: &Session, signature: &str, what: &str) {
     sink.fail("C20", signature, what, &s.history);
 }
@@ -385,8 +473,18 @@ fn one_case(rng: &mut Rng, sink: &mut Sink, profile: Profile, doc: Option<GTree>
         // hypothesis of the property not met: correspondence only
         return;
     }
+    // a random stepwise order (only meaningful without adjacent text: with adjacent text the
+    // merge result depends on the order)
+    if !panicked && no_adjacent_text(&t) {
+        for _ in 0..2 {
+            let root = shuffled_build(&mut s, sink, rng, &t);
+            s.exec(sink, "dump");
+            s.exec(sink, "inv");
+            built.push(Built { route: "shuffled", node: s.nodes[root] });
+        }
+    }
     if panicked {
-        let route = ["xotify", "topdown", "bottomup", "rtl"][built.len()];
+        let route = ["xotify", "topdown", "bottomup", "rtl"][built.len().min(3)];
         fail(sink, &s, &format!("C20:{}-panics", route), &format!("route {} panicked on the well-formed document {}", route, t.wire()));
         return;
     }
